@@ -232,6 +232,83 @@ pub fn run(tier: Tier) -> i32 {
     for x in v {
         viols.entry(x.signature.clone()).or_insert(x);
     }
+    // the daemon's wrappers: SharedClock<OverlayClock<LinuxClock>> converts packet timestamps.
+    // The overlay only reads the system clock (nothing is adjusted), so the anchor is not known
+    // here - the relations checked hold for any anchor: after every operation of every sequence,
+    // the shared wrapper, the overlay's own conversion and time_from_underlying agree exactly on
+    // a spread of timestamps; with steps only the conversion is the underlying time plus the sum
+    // of the steps; differences of two conversions follow the programmed rate.
+    let mut wrapper_cases = 0u64;
+    {
+        use statime::SharedClock;
+        use statime_linux::clock::{LinuxClock, PortTimestampToTime};
+        use timestamped_socket::socket::Timestamp;
+        let ops = [Op::Freq(-500), Op::Freq(0), Op::Freq(250), Op::Step(-10_000_000_000), Op::Step(1), Op::Step(10_000_000_000)];
+        let d = tier.pick(3usize, 4usize);
+        let raw_now = LinuxClock::CLOCK_TAI.now();
+        // where the kernel does not let us read the TAI offset the daemon's conversion cannot run
+        // at all: the sub-check is skipped (and says so), which is not a verdict
+        let usable = catch(|| LinuxClock::CLOCK_TAI.port_timestamp_to_time(Timestamp { seconds: 1, nanos: 0 })).is_ok();
+        if !usable {
+            rep.assume("daemon clock wrapper sub-check skipped: LinuxClock cannot read the TAI offset in this environment");
+        }
+        let d = if usable { d } else { 0 };
+        let tai = LinuxClock::CLOCK_TAI.get_tai_offset().unwrap_or(0) as i64;
+        let base_s = raw_now.secs() as i64 - tai;
+        let stamps: Vec<(i64, u32)> = vec![(base_s - 100, 0), (base_s, 999_999_999), (base_s + 1, 0), (base_s + 1000, 123_456_789)];
+        for code in 0..(if d == 0 { 0 } else { (ops.len() as u64).pow(d as u32) }) {
+            let seq: Vec<Op> = (0..d).map(|i| ops[((code / (ops.len() as u64).pow(i as u32)) % ops.len() as u64) as usize]).collect();
+            let mut shared = SharedClock::new(OverlayClock::new(LinuxClock::CLOCK_TAI));
+            let mut steps_sum: i128 = 0;
+            let mut only_steps = true;
+            let mut ppm = 0i64;
+            for (i, op) in seq.iter().enumerate() {
+                match *op {
+                    Op::Freq(p) => {
+                        let _ = shared.set_frequency(p as f64);
+                        ppm = p as i64;
+                        if p != 0 {
+                            only_steps = false;
+                        }
+                    }
+                    Op::Step(ns) => {
+                        let _ = shared.step_clock(Duration::from_nanos(ns));
+                        steps_sum += ns as i128;
+                    }
+                    Op::Advance(_) => {}
+                }
+                let mut conv = vec![];
+                for &(s, n) in &stamps {
+                    wrapper_cases += 1;
+                    let mk = || Timestamp { seconds: s, nanos: n };
+                    let raw = LinuxClock::CLOCK_TAI.port_timestamp_to_time(mk());
+                    let via_shared = shared.port_timestamp_to_time(mk());
+                    let (via_overlay, via_map) = {
+                        let g = shared.0.lock().unwrap();
+                        (g.port_timestamp_to_time(mk()), g.time_from_underlying(raw))
+                    };
+                    let mut bad = |sig: &str, msg: String| {
+                        viols.entry(sig.to_string()).or_insert(Violation { signature: sig.to_string(), message: format!("{msg} [daemon clock wrapper, ops {:?} (after op {i}), timestamp {s}.{n:09}]", seq), replay: json!({"kind": "wrapper", "seq": seq}) });
+                    };
+                    if via_shared != via_map || via_overlay != via_map {
+                        bad("timestamp-conversion-disagrees-with-the-clock", format!("shared wrapper {via_shared}, overlay {via_overlay}, time_from_underlying {via_map}"));
+                    }
+                    if only_steps && time_to_bits(via_shared) as i128 - time_to_bits(raw) as i128 != steps_sum << 32 {
+                        bad("timestamp-conversion-ignores-steps", format!("converted {via_shared}, underlying {raw}, steps so far {steps_sum} ns"));
+                    }
+                    conv.push((time_to_bits(raw) as i128, time_to_bits(via_shared) as i128));
+                }
+                // rate between the first and the last stamp (1100 s apart): tolerance 1 ns
+                let (r0, c0) = conv[0];
+                let (r1, c1) = conv[conv.len() - 1];
+                let want = (r1 - r0) + (r1 - r0) * ppm as i128 / 1_000_000;
+                if ((c1 - c0) - want).abs() > 1 << 32 {
+                    viols.entry("timestamp-conversion-rate".into()).or_insert(Violation { signature: "timestamp-conversion-rate".into(), message: format!("two timestamps {} ns apart convert to times {} ns apart at {ppm} ppm [daemon clock wrapper, ops {:?}]", (r1 - r0) >> 32, (c1 - c0) >> 32, seq), replay: json!({"kind": "wrapper", "seq": seq}) });
+                }
+            }
+        }
+    }
+    rep.cover("daemon_wrapper_conversions", json!(wrapper_cases));
     rep.violations(viols.into_values());
     // model-checking keys: every sequence is one trace executed on the real OverlayClock
     rep.cover("states", json!(total));
@@ -249,6 +326,10 @@ pub fn run(tier: Tier) -> i32 {
 }
 
 pub fn replay(r: &serde_json::Value) {
+    if r["kind"] == "wrapper" {
+        println!("daemon clock wrapper case {r}: rerun ./check C18 quick (it reads the system clock for its anchor; the relations checked do not depend on it)");
+        return;
+    }
     let seq: Vec<Op> = serde_json::from_value(r["seq"].clone()).unwrap();
     let s: u128 = r["start_ns"].as_str().unwrap().parse().unwrap();
     println!("start {s} ns, ops {:?}", seq);
